@@ -792,7 +792,12 @@ func (ex *Exec) applyCalleeEffects(callee *ssa.Function, args []Val, st *State) 
 	ms, ps := ex.Prog.closureCached(callee)
 	ex.Prog.mu.Unlock()
 	ex.applyModset(st, ms)
+	var idxs []int
 	for i := range ps {
+		idxs = append(idxs, i)
+	}
+	sort.Ints(idxs)
+	for _, i := range idxs {
 		if i >= len(args) || args[i].Addr == nil {
 			continue
 		}
